@@ -26,6 +26,9 @@ type Outcome struct {
 	TimedOut bool     `json:"timed_out,omitempty"`
 	Trace    []string `json:"trace,omitempty"` // file:line:col of the stack trace
 	IsErr    bool     `json:"is_err,omitempty"`
+	// ArgsAfter: canonical dump of the host's argument slice after the run (set by prog.RunVM / RunRef):
+	// packing arguments into a variadic parameter makes a new array, the host's slice is not the script's
+	ArgsAfter string `json:"args_after,omitempty"`
 }
 
 // Equal compares everything except Trace (compared by the checks that want it).
@@ -55,6 +58,8 @@ func (o Outcome) Diff(p Outcome, withMsg bool) string {
 		return fmt.Sprintf("globals %s vs %s", o.Globals, p.Globals)
 	case strings.Join(o.Log, "\x00") != strings.Join(p.Log, "\x00"):
 		return fmt.Sprintf("log %v vs %v", o.Log, p.Log)
+	case o.ArgsAfter != "" && p.ArgsAfter != "" && o.ArgsAfter != p.ArgsAfter:
+		return fmt.Sprintf("globals-like: the host's argument slice after the run is %s vs %s", o.ArgsAfter, p.ArgsAfter)
 	}
 	return ""
 }
